@@ -325,6 +325,7 @@ def rep_cases(rng, tier):
 
 
 def rep_stream(run, vh, rng, tier, replay=None):
+    t_start = time.time()
     cases = rep_cases(rng, tier)
     if replay is not None:
         cases = [dict(replay, id=0)]
@@ -418,7 +419,8 @@ def rep_stream(run, vh, rng, tier, replay=None):
     if replay is None and run.finding_for("call-result-collision") and "KF-C05-04" not in run.known_hits:
         run.corr_breaks.append({"what": "open finding KF-C05-04 (call-result-collision) no longer reproduces on its witness"})
     return {"rep_cases": len(cases), "rep_evaluated": {k: len(v) for k, v in terms.items()}, "rep_skipped_unexpressible": skipped,
-            "rep_layout_histogram": hist, "rep_cases_in_region_KF-C05-04": in_region, "rep_verdict_codes": codes_hist}
+            "rep_layout_histogram": hist, "rep_cases_in_region_KF-C05-04": in_region, "rep_verdict_codes": codes_hist,
+            "rep_wall_s": round(time.time() - t_start, 1)}
 
 
 def main(tier, seed, replay=None):
